@@ -8,7 +8,7 @@ SIGS_OUT = ['', 'i', 's', 'is', 'ai', '(ii)', 'as', '(s)', 'a(is)']       # the 
 OUT_VALUE = {'': None, 'i': 5, 's': 'res', 'is': (4, 'four'), 'ai': [1, 2, 3], '(ii)': (1, 2), 'as': ['only'], '(s)': ('one',), 'a(is)': [(1, 'x')]}
 OUT_CANON = {'': None, 'i': [5], 's': ['res'], 'is': [4, 'four'], 'ai': [[1, 2, 3]], '(ii)': [[1, 2]], 'as': [['only']], '(s)': [['one']], 'a(is)': [[[1, 'x']]]}
 OUTCOMES = ['value', 'deferred', 'deferred_fail', 'raise_named', 'raise_plain', 'raise_badname', 'raise_nul', 'raise_oddclass', 'unencodable',
-            'raise_notimpl', 'raise_typeerror', 'deferred_fail_notimpl']
+            'raise_notimpl', 'raise_typeerror', 'deferred_fail_notimpl', 'raise_empty']
 
 
 class Conn:
@@ -80,6 +80,8 @@ def build_scenario(rnd):
             # failures of the call, named after their class, with their text
             if outcome == 'raise_notimpl':
                 raise NotImplementedError('subclass hook of impl %d' % impl_id)
+            if outcome == 'raise_empty':
+                raise RuntimeError()                       # an exception without text: the message is that (empty) text
             if outcome == 'raise_typeerror':
                 raise TypeError('bad operand in impl %d' % impl_id)
             if outcome == 'deferred_fail_notimpl':
@@ -259,11 +261,14 @@ def one_call(rnd, sc, serial):
     want_err = {'deferred_fail': 'org.verif.Error.Named', 'raise_named': 'org.verif.Error.Named', 'raise_plain': 'org.txdbus.PythonException.KeyError',
                 'raise_badname': 'org.txdbus.InvalidErrorName', 'raise_nul': 'org.txdbus.PythonException.ValueError',
                 'raise_oddclass': 'org.txdbus.InvalidErrorName', 'raise_notimpl': 'org.txdbus.PythonException.NotImplementedError',
-                'raise_typeerror': 'org.txdbus.PythonException.TypeError', 'deferred_fail_notimpl': 'org.txdbus.PythonException.NotImplementedError'}.get(outcome)
+                'raise_typeerror': 'org.txdbus.PythonException.TypeError', 'deferred_fail_notimpl': 'org.txdbus.PythonException.NotImplementedError',
+                'raise_empty': 'org.txdbus.PythonException.RuntimeError'}.get(outcome)
     if type(r).__name__ != 'ErrorMessage':
         return '%s (outcome %s): reply is %s, expected an error' % (what, outcome, type(r).__name__)
     if want_err and r.error_name != want_err:
         return '%s (outcome %s): error reply named %r, expected %r' % (what, outcome, r.error_name, want_err)
+    if outcome == 'raise_empty' and r.body and r.body[0] != '':
+        return '%s (outcome %s): the exception has no text, the error reply carries the message %r' % (what, outcome, r.body[0])
     if outcome in ('raise_notimpl', 'raise_typeerror', 'deferred_fail_notimpl') and not (r.body and 'impl' in str(r.body[0])):
         return '%s (outcome %s): the error reply carries %r, not the text of the exception' % (what, outcome, r.body)
     return None
@@ -336,9 +341,10 @@ def history_cases():
         p.sender = ':1.5'
         del conn.sent[:]
         handler.handleMethodCallMessage(p)
-        if len(conn.sent) != 1 or conn.sent[0].reply_serial != p.serial or conn.sent[0].destination != ':1.5':
+        replies = [r for r in conn.sent if getattr(r, 'reply_serial', None) is not None]      # (signals announcing exports are not replies)
+        if len(replies) != 1 or replies[0].reply_serial != p.serial or replies[0].destination != ':1.5':
             return 'replies %r' % [(type(r).__name__, getattr(r, 'reply_serial', None), r.destination) for r in conn.sent]
-        r = conn.sent[0]
+        r = replies[0]
         return (type(r).__name__, getattr(r, 'error_name', None), r.body)
 
     for with_iface in (True, False):
@@ -398,6 +404,76 @@ def history_cases():
             expect('N(i) after the first object was exported again', call(handler, conn, 'N', 'i', [2], name), 'MethodReturnMessage', None, [2], ('A', 'N', 2))
         if f:
             return '[interface %s] %s' % ('named' if with_iface else 'omitted', f)
+    # the reply to a call is owed to the caller whatever becomes of the object meanwhile: an implementation that unexports its own
+    # object before returning / raising, a Deferred that fires after the object was unexported or replaced
+    from twisted.internet import defer as _defer
+    for mode in ('return', 'raise', 'deferred', 'deferred_replaced'):
+        log = []
+        conn = Conn()
+        handler = objects.DBusObjectHandler(conn)
+        ifc = interface.DBusInterface('org.verif.C', interface.Method('Close', arguments='', returns='s'), noRegister=True)
+        pend = []
+
+        class Cl(objects.DBusObject):
+            dbusInterfaces = [ifc]
+
+            def dbus_Close(self, _mode=mode):
+                if _mode in ('return', 'raise'):
+                    handler.unexportObject('/org/verif/H')
+                    if _mode == 'raise':
+                        raise NamedError('closing failed')
+                    return 'bye'
+                d = _defer.Deferred()
+                pend.append(d)
+                return d
+        handler.exportObject(Cl('/org/verif/H'))
+        got = call(handler, conn, 'Close', None, None, 'org.verif.C')
+        if mode.startswith('deferred'):
+            if conn.sent:
+                return 'a reply was sent before the Deferred of the implementation fired'
+            handler.unexportObject('/org/verif/H')
+            if mode == 'deferred_replaced':
+                handler.exportObject(Cl('/org/verif/H'))
+            del conn.sent[:]
+            pend[0].callback('bye')
+            replies = [r for r in conn.sent if getattr(r, 'reply_serial', None) is not None]
+            got = (type(replies[0]).__name__, getattr(replies[0], 'error_name', None), replies[0].body) if len(replies) == 1 else 'replies %r' % (replies,)
+        want = ('ErrorMessage', 'org.verif.Error.Named') if mode == 'raise' else ('MethodReturnMessage', None)
+        if not isinstance(got, tuple) or got[:2] != want or (mode != 'raise' and got[2] != ['bye']):
+            return 'implementation that %s: the caller got %r, expected %r' % (
+                {'return': 'unexports its object and returns', 'raise': 'unexports its object and raises', 'deferred': 'answers later, its object unexported meanwhile',
+                 'deferred_replaced': 'answers later, its object replaced at the path meanwhile'}[mode], got, want)
+    # a derived class re-declares an interface of its base class under the same name, extended: the derived declaration counts
+    log = []
+    conn = Conn()
+    handler = objects.DBusObjectHandler(conn)
+    v1 = interface.DBusInterface('org.verif.V', interface.Method('M', arguments='s', returns='s'), noRegister=True)
+    v2 = interface.DBusInterface('org.verif.V', interface.Method('M', arguments='i', returns='i'), interface.Method('Extra', arguments='s', returns='s'), noRegister=True)
+
+    class VB(objects.DBusObject):
+        dbusInterfaces = [v1]
+
+        def dbus_M(self, a):
+            log.append(('M', a))
+            return a
+
+    class VD(VB):
+        dbusInterfaces = [v2]
+
+        def dbus_Extra(self, a):
+            log.append(('Extra', a))
+            return a
+    VB('/org/verif/Base')                      # the base class was used first
+    handler.exportObject(VD('/org/verif/H'))
+    for name in ('org.verif.V', None):
+        del log[:]
+        got = call(handler, conn, 'Extra', 's', ['x'], name)
+        if got != ('MethodReturnMessage', None, ['x']) or log != [('Extra', 'x')]:
+            return 'a member added by the derived class\' re-declaration of an inherited interface (interface %s): answered %r, ran %r' % ('named' if name else 'omitted', got, log)
+        del log[:]
+        got = call(handler, conn, 'M', 'i', [5], name)
+        if got != ('MethodReturnMessage', None, [5]) or log != [('M', 5)]:
+            return 'a member re-declared by the derived class with another signature (interface %s): answered %r, ran %r' % ('named' if name else 'omitted', got, log)
     # an exported object's own member called Ping / Introspect, called without naming an interface, is the object's
     for member in ('Ping', 'Introspect'):
         log = []
